@@ -68,10 +68,10 @@ bool g_sub; /* the subtree of child CG carries Z */
     __CPROVER_ensures(__CPROVER_old(idList->has_z) ==> idList->has_z)
 #define __FC_listComponentIds LIST_COMPONENT_CONTRACT(component == SELF_ ? COMPONENT_CARRIES(SELF_) : (component == CG_ && g_sub))
 #define MONO __CPROVER_loop_invariant(__CPROVER_loop_entry(idList->has_z) ==> idList->has_z)
-#define __LC_listComponentIds_0 __CPROVER_assigns(v, id, idList->has_z) MONO __CPROVER_loop_invariant((v > GV && GV < g_nvar && VG_CARRIES) ==> idList->has_z)
-#define __LC_listComponentIds_1 __CPROVER_assigns(e, id, idList->has_z) MONO __CPROVER_loop_invariant((variable == VG_ && e > GE && GE < g_neq && (g_map == Z || g_conn == Z)) ==> idList->has_z)
-#define __LC_listComponentIds_2 __CPROVER_assigns(r, id, idList->has_z) MONO __CPROVER_loop_invariant((r > GR && GR < g_nres && RG_CARRIES) ==> idList->has_z)
-#define __LC_listComponentIds_3 __CPROVER_assigns(c, idList->has_z) MONO __CPROVER_loop_invariant((c > GC && GC < g_nchild && g_sub) ==> idList->has_z)
+#define __LC_listComponentIds_0 __CPROVER_assigns(LV, id, idList->has_z) MONO __CPROVER_loop_invariant((LV > GV && GV < g_nvar && VG_CARRIES) ==> idList->has_z)
+#define __LC_listComponentIds_1 __CPROVER_assigns(LV, id, idList->has_z) MONO __CPROVER_loop_invariant((variable == VG_ && LV > GE && GE < g_neq && (g_map == Z || g_conn == Z)) ==> idList->has_z)
+#define __LC_listComponentIds_2 __CPROVER_assigns(LV, id, idList->has_z) MONO __CPROVER_loop_invariant((LV > GR && GR < g_nres && RG_CARRIES) ==> idList->has_z)
+#define __LC_listComponentIds_3 __CPROVER_assigns(LV, idList->has_z) MONO __CPROVER_loop_invariant((LV > GC && GC < g_nchild && g_sub) ==> idList->has_z)
 
 /* listIds(model): the model's own ids, every units (its id, its import source's id, the ids of its unit children) and every component subtree */
 #define UG_CARRIES (g_id[UG_] == Z || (g_imp[UG_] != 0 && g_id[g_imp[UG_]] == Z) || (GI < g_nunit && g_unitid == Z))
@@ -81,7 +81,7 @@ bool g_sub; /* the subtree of child CG carries Z */
     __CPROVER_assigns()                                                                        \
     __CPROVER_ensures(MODEL_CARRIES ==> __CPROVER_return_value.has_z)
 #define MONO2 __CPROVER_loop_invariant(__CPROVER_loop_entry(idList.has_z) ==> idList.has_z)
-#define __LC_listIds_0 __CPROVER_assigns(u, id, idList.has_z) MONO2 __CPROVER_loop_invariant((u > GU && GU < g_nunits && UG_CARRIES) ==> idList.has_z)
-#define __LC_listIds_1 __CPROVER_assigns(i, id, idList.has_z) MONO2 __CPROVER_loop_invariant((units == UG_ && i > GI && GI < g_nunit && g_unitid == Z) ==> idList.has_z)
-#define __LC_listIds_2 __CPROVER_assigns(c, idList.has_z) MONO2 __CPROVER_loop_invariant((c > GC && GC < g_nchild && g_sub) ==> idList.has_z)
+#define __LC_listIds_0 __CPROVER_assigns(LV, id, idList.has_z) MONO2 __CPROVER_loop_invariant((LV > GU && GU < g_nunits && UG_CARRIES) ==> idList.has_z)
+#define __LC_listIds_1 __CPROVER_assigns(LV, id, idList.has_z) MONO2 __CPROVER_loop_invariant((units == UG_ && LV > GI && GI < g_nunit && g_unitid == Z) ==> idList.has_z)
+#define __LC_listIds_2 __CPROVER_assigns(LV, idList.has_z) MONO2 __CPROVER_loop_invariant((LV > GC && GC < g_nchild && g_sub) ==> idList.has_z)
 #endif
